@@ -1,6 +1,6 @@
 (* RbcStep: what one received message does to the protocol state of a party (C14): filters, echo/ready counters, dbar, mbar,
    messages sent, deliveries -- the local facts the network invariants of RbcAgreement.v are built from. *)
-From Coq Require Import ZArith List Bool Lia.
+From Coq Require Import ZArith List Bool Lia FinFun.
 From LT Require Import RbcModel RbcLemmas.
 Import ListNotations.
 Local Open Scope Z_scope.
@@ -53,6 +53,18 @@ Proof. intros n d x m I. unfold to_all in I. apply in_map_iff in I. destruct I a
 (* projections of the setters *)
 Ltac proj := cbn [cur sq fifo stack recov filt mbar dbar ed rd dls dbuf derr rbuf fbuf
                   set_chan set_sq set_filt set_mbar set_dbar set_ed set_rd set_dls set_dbuf set_derr set_rbuf set_fbuf] in *.
+
+Lemma range_nodup : forall n, NoDup (range n).
+Proof.
+  intros n. unfold range. apply Injective_map_NoDup; [|apply seq_NoDup].
+  intros a b E. lia.
+Qed.
+Lemma range_in : forall n i, In i (range n) <-> 0 <= i < n.
+Proof.
+  intros n i. unfold range. rewrite in_map_iff. split.
+  - intros (k & <- & I). apply in_seq in I. lia.
+  - intros R. exists (Z.to_nat i). split; [lia|]. apply in_seq. lia.
+Qed.
 
 Section Step.
 Variables (n t : Z) (H : Z -> Z) (toolong : tagT -> Z -> bool).
